@@ -86,6 +86,11 @@ def case_record(c):
     if c.get('user_pktidx') is not None:
         hd['PKTIDX'] = c['user_pktidx']
         start_pkt = int(c['user_pktidx'])
+    first_pkt = start_pkt
+    if c.get('user_pktstart') is not None:
+        # a caller-supplied PKTSTART is a user card like any other: kept as given (0 included), PKTSTOP follows it
+        hd['PKTSTART'] = c['user_pktstart']
+        first_pkt = int(c['user_pktstart'])
     if c.get('override'):
         for k in c['override']:
             hd[k] = BOGUS[k]
@@ -168,10 +173,10 @@ def case_record(c):
             # packet counters
             if need('PKTIDX') and h['PKTIDX'] != start_pkt + bi * spb:
                 V('pktidx', 'block %d PKTIDX=%r expected %d' % (bi, h['PKTIDX'], start_pkt + bi * spb))
-            if need('PKTSTART') and h['PKTSTART'] != start_pkt:
-                V('pktstart', 'block %d PKTSTART=%r expected %d' % (bi, h['PKTSTART'], start_pkt))
-            if need('PKTSTOP') and h['PKTSTOP'] != start_pkt + nb * spb:
-                V('pktstop', 'block %d PKTSTOP=%r expected %d' % (bi, h['PKTSTOP'], start_pkt + nb * spb))
+            if need('PKTSTART') and h['PKTSTART'] != first_pkt:
+                V('pktstart', 'block %d PKTSTART=%r expected %d' % (bi, h['PKTSTART'], first_pkt))
+            if need('PKTSTOP') and h['PKTSTOP'] != first_pkt + nb * spb:
+                V('pktstop', 'block %d PKTSTOP=%r expected %d' % (bi, h['PKTSTOP'], first_pkt + nb * spb))
             # user cards preserved
             for k, (kind, val) in exp_user.items():
                 if k not in h:
@@ -585,6 +590,13 @@ def run(ctx):
                         cases.append(dict(box='C', n_user=3, kind_off=2, directio='1', template=template, source=source,
                                           num_blocks=3, bpf=2, bits=8, perms=False, override=ov, user_pktidx=pk,
                                           npol=npol, asc=(npol == 1), fch1=6e9 if npol == 1 else 0.0, start_chan=0))
+    # caller-supplied PKTSTART, zero included, with and without a (different) first PKTIDX
+    for pk in (None, 1000, 0):
+        for ps in (0, 512):
+            for template in (False, True):
+                cases.append(dict(box='C', n_user=3, kind_off=2, directio='1', template=template, source='ant',
+                                  num_blocks=3, bpf=2, bits=8, perms=False, user_pktidx=pk, user_pktstart=ps,
+                                  npol=1, asc=True, fch1=6e9, start_chan=0))
     # the pipeline-owned frequency cards for every first recorded channel (OBSFREQ is the centre of the recorded window)
     for sc in (0, 1, 2, 3):
         for nchan in (1, 2, 3):
